@@ -181,7 +181,70 @@ def serialise(obj):
     return out
 
 
-def _wellformed(res, name, out):
+import re as _re
+
+_MD_LINE = _re.compile(r'^( *)(\* |\d+\.)(.*)$')
+
+
+def _markdown_structure_problem(text):
+    """Structural well-formedness of the rendered report: an entry that announces a nested value ("* Key:" or a
+    bare list number) must be followed by a line that is indented deeper, and indentation only ever deepens
+    right after such an entry."""
+    lines = [line for line in text.split('\n') if line.strip()]
+    for idx, line in enumerate(lines):
+        match = _MD_LINE.match(line)
+        if not match:
+            continue
+        indent, _, rest = match.groups()
+        opens = rest.rstrip().endswith(':') and rest.count(': ') == 0 or rest.strip() == ''
+        following = lines[idx + 1] if idx + 1 < len(lines) else None
+        next_match = _MD_LINE.match(following) if following is not None else None
+        if opens:
+            if following is None:
+                return 'entry %r announces a nested value but nothing follows' % line.strip()
+            if next_match is not None and len(next_match.group(1)) <= len(indent):
+                return 'entry %r announces a nested value but the next line %r is not indented deeper' % (
+                    line.strip()[:60], following.strip()[:60])
+    return None
+
+
+def _json_composition_problem(obj, text):
+    """The JSON of a list-valued field is the list of the JSONs of its items: a value has one defined rendering
+    wherever it appears."""
+    from cryptoparser.common.base import ArrayBase, Serializable
+    if not attr.has(type(obj)):
+        return None
+    own_asdict = getattr(type(obj), '_asdict', None)
+    if own_asdict is not None and own_asdict is not Serializable._asdict:  # pylint: disable=protected-access
+        return None     # the class defines its own document layout
+    try:
+        document = json.loads(text)
+    except ValueError:
+        return None
+    if not isinstance(document, dict):
+        return None
+    for field in attr.fields(type(obj)):
+        key = field.name
+        value = getattr(obj, key, None)
+        if key.startswith('_') or key not in document or not isinstance(value, (list, tuple, ArrayBase)):
+            continue
+        rendered = document[key]
+        if not isinstance(rendered, list) or len(rendered) != len(value):
+            continue
+        for index, item in enumerate(value):
+            try:
+                # the library's own rendering of the item on its own (json.dumps would print an IntEnum as a number
+                # without ever consulting the library)
+                alone = json.loads(json.dumps(Serializable._json_traverse(item, Serializable._json_result)))  # pylint: disable=protected-access
+            except Exception:  # pylint: disable=broad-except
+                break
+            if alone != rendered[index]:
+                return 'field %s item %d renders as %s inside the object and as %s alone' % (
+                    key, index, json.dumps(rendered[index])[:80], json.dumps(alone)[:80])
+    return None
+
+
+def _wellformed(res, name, out, obj=None, benign=False):
     ok = True
     text = out['json']
     if not isinstance(text, str):
@@ -207,6 +270,19 @@ def _wellformed(res, name, out):
         elif not isinstance(text, str):
             res.violation((PROPERTY, 'markdown-not-text', name, text['not_text']), 'Markdown serialisation yields text',
                           'as_markdown() returned %s' % text['repr'])
+            ok = False
+        elif benign:
+            # (only for subjects whose values come from valid seeds: the renderer does not escape values, so a
+            # value that itself ends with a colon would read like an entry announcing a nested value)
+            problem = _markdown_structure_problem(text)
+            if problem:
+                res.violation((PROPERTY, 'markdown-structure', name), 'Markdown serialisation yields a well-formed nested list',
+                              problem)
+                ok = False
+    if ok and obj is not None and isinstance(out['json'], str):
+        problem = _json_composition_problem(obj, out['json'])
+        if problem:
+            res.violation((PROPERTY, 'json-not-compositional', name), 'every value has one defined rendering', problem)
             ok = False
     return ok
 
@@ -354,7 +430,8 @@ def _exec_history(doc, res):  # pylint: disable=too-many-branches,too-many-state
                               'after serialising %s the class-level encoder is %r' % (
                                   name, type(Serializable.__dict__.get('post_text_encoder')).__name__))
                 Serializable.post_text_encoder = expected_encoder
-            if not _wellformed(res, name, out):
+            if not _wellformed(res, name, out, obj if doc['encoder'] == 'default' else None,
+                               benign=spec[0] in ('corpus', 'factory') and doc['encoder'] == 'default'):
                 continue
             first[idx] = (name, out, obj)
             # equal objects: the same object built through the constructor with declared (enum) field types
